@@ -507,6 +507,23 @@ class RealTunnel:
         self._reap()
         return k, order, calls
 
+    def end_quiet(self, end):
+        """`HQ` of every listed handler of one end, on the REAL objects (the conclusion of
+        C02_pass_without_progress_is_quiet)."""
+        for f in self.flows:
+            p, hl, env, sock_first = ((f.cproxy, self.chandlers, f.app, True) if end == 'c'
+                                      else (f.sproxy, self.shandlers, f.dst, False))
+            if p is None or p not in hl:
+                continue
+            sw, mw = (p.wrap1, p.wrap2) if sock_first else (p.wrap2, p.wrap1)
+            ok = (sw.connect_to is None and not b''.join(sw.buf) and not b''.join(mw.buf) and
+                  (sw.shut_read or (not env.pending and not env.eof_in)) and
+                  (not sw.shut_read or mw.shut_write) and (not mw.shut_read or sw.shut_write) and
+                  (not sw.shut_write or mw.shut_read) and (not mw.shut_write or sw.shut_read))
+            if not ok:
+                return False
+        return True
+
     def quiet(self):
         """'Nothing is pending' evaluated on the REAL objects (the Python twin of Quiet / quietB): queues drained,
         no handler connecting, both buffers of every listed handler empty, nothing to read, every flag that
@@ -651,17 +668,13 @@ class Script:
                      if (f.cproxy if end == 'c' else f.sproxy) in (t.chandlers if end == 'c' else t.shandlers)]
             nf, order, calls = t.round(end, nframes, ready_flows, iov)
             self.steps.append(st)
-            # the same round on the model: drop dead handlers, every pre_select in handler order, the frames,
-            # then the callbacks in the order the real loop made them
-            self.ins.append('q rm %s' % end)
-            for i in order:
-                self.ins.append('q pre %s %d' % (end, i))
-            for _ in range(nf):
-                self.ins.append('q deliver %s ok' % end)
-            for i, iotext in calls:
-                self.ins.append('q cb %s %d %s' % (end, i, iotext))
-            self.ins.append('pre %s 99999' % end)
-            self.outs.append(t.show() + ' wants=none')
+            # the whole pass is the model's own `World.round` (Code/Loop.lean): it drops the finished handlers, runs
+            # every pre_select, decides from what they asked for and from what the environment reports which
+            # descriptors select returns, and makes the callbacks itself; the state after the pass and the number
+            # of callbacks are compared with what the real runonce did
+            rtxt = 'auto' if ready_flows == 'auto' else (','.join(str(i) for i in sorted(set(ready_flows))) or '-')
+            self.ins.append('round %s %d %s %s' % (end, nf, rtxt, iov.text()))
+            self.outs.append(t.show() + ' wants=none cbs=%d' % len(calls))
             return True
         if k == 'quiet':
             self.steps.append(st)
